@@ -194,18 +194,22 @@ fn churn(plan: Plan, classes: u8, n: usize, tier: Tier, need_inplace: bool) -> B
 /// churn space does not reach growth_left == 0 with few live keys; start from
 /// scripted tombstone-saturated states instead (depth-bounded, not a fixpoint).
 fn churn_seeded(tier: Tier) -> Box<dyn Config> {
+    churn_seeded_of::<TKey, TVal>(Plan::Zero, tier, "")
+}
+
+fn churn_seeded_of<K: KeyT, V: ValT>(plan: Plan, tier: Tier, tag: &str) -> Box<dyn Config> {
     let n = 28usize;
-    let mut c = MapCfg::new(Plan::Zero, 30);
+    let mut c = MapCfg::new(plan, 30);
     c.alphabet = Alphabet::churn();
     c.max_live = Some(n);
     c.no_growth_when_half_empty = true;
-    let (size, align) = hashbrown::verif::table_layout_of::<(TKey, TVal)>();
+    let (size, align) = hashbrown::verif::table_layout_of::<(K, V)>();
     let base = hashbrown::verif::capacity_to_buckets(n, size, align).unwrap();
     c.bucket_bound = Some(4 * base);
-    let label = format!("{}-churn-seeded", c.label());
+    let label = format!("{}-churn-seeded{}", c.label(), tag);
     let mut l = lim(tier);
     l.max_depth = Some(if tier == Tier::Quick { 3 } else { 6 });
-    let mut b = BfsConfig::new(label, MapHarness::<TKey, TVal>::new(c), l);
+    let mut b = BfsConfig::new(label, MapHarness::<K, V>::new(c), l);
     let mut seeds = Vec::new();
     for removed in [14u8, 15, 20, 27, 28] {
         let mut h: Vec<MapOp> = (0..28).map(MapOp::Insert).collect();
@@ -238,12 +242,18 @@ pub fn configs_c13(tier: Tier) -> Vec<Box<dyn Config>> {
     if sse2 {
         v.push(churn(Plan::Zero, 1, if q { 15 } else { 19 }, tier, false));
         v.push(churn_seeded(tier));
+        // one home per key: an absent key whose own bucket is EMPTY while the free-slot budget is spent on tombstones
+        v.push(churn_seeded_of::<TKey, TVal>(Plan::Seq, tier, ""));
+        // 136-byte entries: reclaiming in place must not depend on the element size
+        v.push(churn_seeded_of::<PKey, BVal>(Plan::Zero, tier, "-bulky"));
         v.push(churn(Plan::Zero, 1, 3, tier, false));
         v.push(churn(Plan::Zero, 1, 7, tier, false));
         v.push(churn(Plan::Cluster(2), 2, if q { 4 } else { 7 }, tier, false));
         v.push(churn(Plan::Seq, 1, if q { 4 } else { 6 }, tier, false));
     } else {
         v.push(churn(Plan::Zero, 1, if q { 8 } else { 14 }, tier, true));
+        v.push(churn_seeded_of::<PKey, BVal>(Plan::Zero, tier, "-bulky"));
+        v.push(churn_seeded_of::<TKey, TVal>(Plan::Seq, tier, ""));
         v.push(churn(Plan::Zero, 1, 3, tier, false));
         v.push(churn(Plan::Zero, 1, 7, tier, false));
         v.push(churn(Plan::Cluster(2), 2, if q { 5 } else { 8 }, tier, !q));
